@@ -197,3 +197,29 @@ pub fn run_ctx(tier: &str, seed: u64, out: &mut Out) {
         out.raw(&job.to_string());
     }
 }
+
+/// named character references: names on stdin (one per line, without & and ;), output name \t decoded
+/// code points (hook level) and, per batch of 40, the text nodes the runtime-visible parse produces
+pub fn run_entnames(out: &mut Out) {
+    use std::io::Read;
+    let mut input = String::new();
+    std::io::stdin().read_to_string(&mut input).unwrap();
+    let names: Vec<&str> = input.lines().filter(|l| !l.is_empty()).collect();
+    for n in &names {
+        let r = hooks::entities_decode(&format!("&{};", n));
+        let j = serde_json::json!({"kind": "hook", "name": n, "decoded": r.map(|s| s.chars().map(|c| c as u32).collect::<Vec<u32>>())});
+        out.raw(&j.to_string());
+    }
+    // whole pipeline: static text and a static attribute value
+    for chunk in names.chunks(40) {
+        let mut src = String::new();
+        for n in chunk {
+            src.push_str(&format!("<v a=\"[&{};]\">[&{};]</v>", n, n));
+        }
+        let mut g = TmplGroup::new();
+        g.add_tmpl("p", &src);
+        let bundle = g.get_tmpl_gen_object_groups().unwrap_or_default();
+        let j = serde_json::json!({"kind": "e2e", "names": chunk, "bundle": bundle, "src": src});
+        out.raw(&j.to_string());
+    }
+}
